@@ -49,3 +49,18 @@ _f("rig/routing_table/minimise.py::minimise_tables")
 # (a context keeps its OWN dictionary and list: Context.update / before_close change them in place, and the controllers pass
 #  the mutable default argument of their constructors down to it)
 _f("rig/utils/contexts.py::Context.__init__", modifies=("self",), owned=("context_arguments", "_before_close"))
+# ---- the helpers around the pipeline (probing results -> machine model, trees -> tables, table utilities, router internals) -----
+for _t in ("rig/place_and_route/utils.py::build_machine", "rig/place_and_route/utils.py::build_core_constraints",
+           "rig/place_and_route/utils.py::build_application_map", "rig/place_and_route/utils.py::build_routing_tables",
+           "rig/routing_table/utils.py::build_routing_table_target_lengths", "rig/routing_table/utils.py::table_is_subset_of",
+           "rig/routing_table/utils.py::expand_entry", "rig/routing_table/utils.py::expand_entries", "rig/routing_table/utils.py::get_common_xs",
+           "rig/place_and_route/route/ner.py::ner_net", "rig/place_and_route/route/ner.py::avoid_dead_links",
+           "rig/place_and_route/route/ner.py::copy_and_disconnect_tree", "rig/place_and_route/route/ner.py::a_star",
+           "rig/machine_control/regions.py::compress_flood_fill_regions"):
+    _f(_t)
+# ---- bit fields: the queries change nothing at all; definitions, value assignment and layout change only the bit field ---------
+# (needs the return summaries for recursive functions of pyvc.frames: the field tree is walked recursively)
+for _t in ("get_value", "get_mask", "get_tags", "get_location_and_length", "__eq__", "__repr__"):
+    _f("rig/bitfield.py::BitField.%s" % _t)
+for _t in ("add_field", "__call__", "assign_fields"):
+    _f("rig/bitfield.py::BitField.%s" % _t, modifies=("self",))
